@@ -16,5 +16,12 @@ C2 == MkTree({<<"pkg">>}, (<<"a">> :> 3) @@ (<<"pkg","b">> :> 1))
 C3 == MkTree({}, (<<"b">> :> 2))
 MCInitTreesC == {C1, C2, C3}
 
-Export == TRUE
+MCUniverse == { <<"a">>, <<"b">>, <<"pkg">>, <<"pkg","i">>, <<"pkg","b">> }
+
+\* one behaviour per state: the actions that led here and what the spec says
+\* about this state (the harness compares warm vs fresh answers here)
+Behaviour == [trail |-> trail, tree |-> TreePairs(tree), quiet |-> (ext = {}),
+              stale |-> StaleNegative,
+              cached |-> { p \in Paths : Cached(p) }, filesValid |-> filesValid]
+Export == (Len(trail) >= 1) => PrintT(<<"BEH", ToJson(Behaviour)>>)
 =============================================================================
